@@ -407,7 +407,7 @@ class AggregatedFrame(ProtocolDataUnit):
                 (pdu_size,) = struct.unpack_from('!H', data, offset)
             except struct.error:
                 raise DecodeError("aggregated PDU length field error in AGF")
-            agf_pdu.append(decode(data, offset+2, pdu_size))
+            agf_pdu.append(decode(data, offset+2, pdu_size, nested=True))
             offset, size = offset + 2 + pdu_size, size - 2 - pdu_size
         return agf_pdu
 
@@ -925,7 +925,7 @@ pdu_type_map = {
 }
 
 
-def decode(data, offset=0, size=None):
+def decode(data, offset=0, size=None, nested=False):
     size = len(data) if size is None else size
 
     if offset + size > len(data):
@@ -938,6 +938,8 @@ def decode(data, offset=0, size=None):
     data, offset = data[offset:offset+size], 0
 
     ptype = (struct.unpack_from('>H', data, offset)[0] >> 6) & 0b1111
+    if nested and ptype == 0b0010:
+        raise DecodeError("an AGF PDU must not be aggregated in an AGF PDU")
     pdu_type = pdu_type_map.get(ptype, UnknownProtocolDataUnit)
     return pdu_type.decode(data, offset, size)
 
